@@ -149,8 +149,8 @@ type tobj struct {
 	hdrVal  []byte // header message bytes
 	hdrObj  []byte // canonical encoding of the payload-less object
 	payload []byte
-	pfx     uint64 // payload bytes that fit the first buffered read of a plain file
-	stored  int    // stored (possibly compressed) size
+	pfx     uint64     // payload bytes that fit the first buffered read of a plain file
+	stored  int        // stored (possibly compressed) size
 	sweep   *sweepCase // set for members of boundary-sweep files
 	size    *sizeCase  // set for objects of the header-buffer size sweep
 }
@@ -177,7 +177,7 @@ func (t *tobj) shape() string {
 		case t.size != nil:
 			lay = "size-sweep:" + t.size.Family + ":" + t.size.Layout
 		case t.sweep != nil:
-			lay = "boundary-sweep:" + t.sweep.Kind + ":" + t.sweep.class()
+			lay = "boundary-sweep:" + t.sweep.fpKind() + ":" + t.sweep.fpClass()
 		case strings.Contains(t.Format, "combined-single"):
 			lay = "sole-member"
 		case strings.Contains(t.Format, "combined-3"):
@@ -219,6 +219,8 @@ var (
 	ownerID     user.ID
 )
 
+var hdrPad int
+
 func mkObject(format string, L int, pattern string, k int) *tobj {
 	cnr, ok := cnrByFormat[format]
 	if !ok {
@@ -232,6 +234,9 @@ func mkObject(format string, L int, pattern string, k int) *tobj {
 	o.SetOwner(ownerID)
 	o.SetType(object.TypeRegular)
 	o.SetCreationEpoch(1)
+	if hdrPad > 0 { // experiment only (VERIF_C11_HDRSWEEP): header beyond the 16 KiB protocol limit
+		o.SetAttributes(object.NewAttribute("pad", strings.Repeat("p", hdrPad)))
+	}
 	pld := mkPayload(pattern, L)
 	o.SetPayload(pld)
 	o.SetPayloadSize(uint64(L))
@@ -301,14 +306,14 @@ func (l storLayer) Extra(oid.Address, uint64, uint64) map[string]func() ([]byte,
 // ---------- checking ----------
 
 type tcase struct {
-	Layer   string `json:"layer"`
-	Format  string `json:"format"`
-	L       int    `json:"payload_len"`
-	Pattern string `json:"pattern"`
-	K       int    `json:"k"`
-	Mode    uint8  `json:"mode"`
-	First   uint64 `json:"first"`
-	Second  uint64 `json:"second"`
+	Layer   string     `json:"layer"`
+	Format  string     `json:"format"`
+	L       int        `json:"payload_len"`
+	Pattern string     `json:"pattern"`
+	K       int        `json:"k"`
+	Mode    uint8      `json:"mode"`
+	First   uint64     `json:"first"`
+	Second  uint64     `json:"second"`
 	Sweep   *sweepCase `json:"sweep,omitempty"`
 	Size    *sizeCase  `json:"size,omitempty"`
 }
@@ -790,8 +795,8 @@ func ranges(L uint64, large bool, pfx uint64) []common.PayloadRange {
 
 type world struct {
 	dir    string
-	layers map[string]layer        // by name
-	objs   map[string][]*tobj      // layer name -> objects readable through it
+	layers map[string]layer   // by name
+	objs   map[string][]*tobj // layer name -> objects readable through it
 	closer []func()
 	byKey  map[string]*tobj
 }
@@ -874,8 +879,8 @@ func lengths(thorough bool) []spec {
 	large := map[int]bool{}
 	for _, c := range []int{hbuf, 2 * hbuf} {
 		for d := -2; d <= 2; d++ {
-			large[c+d] = true        // payload length around the boundary
-			large[c-over+d] = true   // file length around the boundary
+			large[c+d] = true      // payload length around the boundary
+			large[c-over+d] = true // file length around the boundary
 		}
 	}
 	large[100000] = true
@@ -899,13 +904,13 @@ func lengths(thorough bool) []spec {
 }
 
 const (
-	fPlain     = "plain"
-	fPlainZ    = "plain-zstd"
-	fSingle    = "combined-single"
-	fSingleZ   = "combined-single-zstd"
-	fBatch     = "combined-3"
-	fBatchZ    = "combined-3-zstd"
-	fBatchMix  = "combined-3-mixed" // plain + zstd members in one file
+	fPlain    = "plain"
+	fPlainZ   = "plain-zstd"
+	fSingle   = "combined-single"
+	fSingleZ  = "combined-single-zstd"
+	fBatch    = "combined-3"
+	fBatchZ   = "combined-3-zstd"
+	fBatchMix = "combined-3-mixed" // plain + zstd members in one file
 )
 
 func buildFSTree(w *world, specs []spec) {
@@ -1014,9 +1019,34 @@ func main() {
 
 	buildFSTree(w, specs)
 	buildUpper(w, specs)
-	sweeps := sweepCases()
+	sweeps := sweepCases(r.Quick())
 	buildSweep(w, sweeps)
 	r.Set("boundary_sweep_files", len(sweeps))
+	if os.Getenv("VERIF_C11_HDRSWEEP") != "" {
+		// one-off experiment: payload field tag at every offset around the end of the buffered head
+		base := mkObject("hdr-end-probe", 30000, "random", 0)
+		tagAt := len(base.enc) - 30000 - 4 // tag + 3-byte length varint
+		t := w.layers["fstree"].(storLayer).s.(*fstree.FSTree)
+		var hs []*tobj
+		for want := hbuf - 12; want <= hbuf+2; want++ {
+			hdrPad = want - tagAt - 7
+			for try := 0; try < 6; try++ {
+				o := mkObject(fmt.Sprintf("hdr-end/%d", want), 30000, "random", 0)
+				at := len(o.enc) - 30000 - 4
+				if at == want {
+					o.size = &sizeCase{Family: "oversized-header", Plain: len(o.enc), Layout: fmt.Sprintf("payload-tag@B%+d", want-hbuf)}
+					must(t.Put(o.addr, o.enc), "put hdr-end")
+					hs = append(hs, o)
+					break
+				}
+				hdrPad += want - at
+			}
+		}
+		hdrPad = 0
+		w.layers["fstree/hdr-end"] = w.layers["fstree"]
+		w.objs["fstree/hdr-end"] = hs
+		r.Set("hdr_end_objects", len(hs))
+	}
 	r.Set("size_sweep", buildSizeSweep(w, sizeCases(r.Quick())))
 	maxResolve := uint64(64)
 	if r.Thorough() {
@@ -1059,7 +1089,7 @@ func main() {
 		ck := &checker{l: w.layers[j.ln], t: j.o, k: j.k, buf: make([]byte, 2*hbuf)}
 		rs := ranges(uint64(j.o.L), large, j.o.pfx)
 		if j.o.swept() {
-			rs, large = sweepRanges(uint64(j.o.L)), false
+			rs, large = sweepRanges(uint64(j.o.L), j.o.pfx), false
 		}
 		for _, rg := range rs {
 			ck.one(rg)
@@ -1116,7 +1146,7 @@ func main() {
 	r.Sample(map[string]any{"payload_len": 10, "range": "bounds(2,20)", "reference": refRange(10, common.NewPayloadRangeBounds(2, 20))})
 	r.Sample(map[string]any{"payload_len": 10, "range": "offset-length(8,3)", "reference": refRange(10, common.NewPayloadRange(8, 3))})
 	r.Sample(map[string]any{"payload_len": 0, "range": "suffix(3)", "reference": refRange(0, common.NewPayloadRangeSuffix(3))})
-	r.Rule("payload lengths 0..64: every range mode with every (first, second) in 0..len+2 plus {2^63-1, 2^63, 2^64-len, 2^64-1}; large payloads (payload or file length within +-2 of 20480/40960, and 100000; random and compressible contents): values within +-2 of {0, buffered prefix, 20480, 40960, len}, len/2 and the huge values, read twice (ReadAll and 4099-byte reads); every object in every file format and layer listed in ranges_per_layer_format; each evaluation = one (object, range) with all APIs. Non-trivial = satisfiable range whose slice is non-empty and shorter than the payload. Boundary sweep: combined files of 2-3 members whose leading member sizes are swept so that the next member prefix starts at every file offset in [E-80, E+2] for every buffer end E of the member-prefix scan (E = B, 2B with B = NonPayloadFieldsBufferLength; after a straddling prefix; after a seek), member lengths with non-zero low bytes, poisoned caller buffers; every member read with 15 boundary-directed ranges (whole object, full, first/last byte, halves, clamped, unsatisfiable) through all FSTree range APIs. Header-buffer size sweep: objects of every plain size in windows around B and 2B (quick +-20 / +-6, thorough +-64) with incompressible, compressible and mixed payloads, raw and zstd-compressed (plain and stored size independently below, at, above B), as single file / first member / last member of a combined file, each read with the same 15 ranges through all FSTree range APIs")
+	r.Rule("payload lengths 0..64: every range mode with every (first, second) in 0..len+2 plus {2^63-1, 2^63, 2^64-len, 2^64-1}; large payloads (payload or file length within +-2 of 20480/40960, and 100000; random and compressible contents): values within +-2 of {0, buffered prefix, 20480, 40960, len}, len/2 and the huge values, read twice (ReadAll and 4099-byte reads); every object in every file format and layer listed in ranges_per_layer_format; each evaluation = one (object, range) with all APIs. Non-trivial = satisfiable range whose slice is non-empty and shorter than the payload. Boundary sweep: combined files of 2-3 members whose leading member sizes are swept so that the next member prefix starts at every file offset in [E-80, E+2] for every buffer end E of the member-prefix scan (E = B, 2B with B = NonPayloadFieldsBufferLength; after a straddling prefix; after a seek), member lengths with non-zero low bytes, poisoned caller buffers; every member read with 15 boundary-directed ranges (whole object, full, first/last byte, halves, clamped, unsatisfiable) through all FSTree range APIs; the same prefix alignments (0..38 prefix bytes inside the read window, plus margins; thorough: the whole [E-80, E+2] window, also around 2B) with a swept member that is itself streamed (B+321 bytes; 2B+411 bytes) in last and middle position, after a straddling prefix (19 / 37 bytes buffered) and after a seek. Header-buffer size sweep: objects of every plain size in windows around B and 2B (quick +-20 / +-6, thorough +-64) with incompressible, compressible and mixed payloads, raw and zstd-compressed (plain and stored size independently below, at, above B), as single file / first member / last member of a combined file, each read with the same 15 ranges through all FSTree range APIs")
 	r.Assume("offset-length ranges with zero length at a non-zero offset are not specified by the doc comments (the engine's GetRange comment and PayloadRange.Resolve contradict each other): only agreement between all APIs, layers and formats is demanded for them",
 		"objects are valid (header payload length = actual payload length); stored compressed data is a single zstd frame as written by older node versions")
 	r.Exhaustive(!incomplete)
